@@ -921,12 +921,20 @@ class Interp:
                 for trk in (trfull, trshort):
                     if (tkey, trk, m.group(5)) in self.impls:
                         return ('mir', self.fns[self.impls[(tkey, trk, m.group(5))]], ts)
-        mg = re.fullmatch(r'([\w:]+)::<(.*)>::(\w+)(?:::<.*>)?', callee)
+        mg = re.fullmatch(r'([\w:]+)::<(.*?)>::(\w+)(?:::<(.*)>)?', callee)
         if mg:
             for tkey in (mg.group(1), mg.group(1).split('::')[-1]):
                 if (tkey, None, mg.group(3)) in self.impls:
+                    fn = self.fns[self.impls[(tkey, None, mg.group(3))]]
                     ts = dict(zip(['T', 'U', 'V'], [t.strip() for t in split_top(mg.group(2), ',')]))
-                    return ('mir', self.fns[self.impls[(tkey, None, mg.group(3))]], ts)
+                    if mg.group(4):
+                        # generics of the method itself: the capital-letter names of its signature that are not the impl's
+                        names = []
+                        for t in fn.param_types + [fn.ret]:
+                            for n in re.findall(r'(?<![\w:])([A-Z])(?![\w:])', t):
+                                if n not in names and n not in ts: names.append(n)
+                        ts.update(zip(names, [t.strip() for t in split_top(mg.group(4), ',')]))
+                    return ('mir', fn, ts)
         m = re.fullmatch(r'([\w:]+)::(\w+)(?:::<.*>)?', callee)
         if m:
             for tkey in (m.group(1), m.group(1).split('::')[-1]):
